@@ -69,7 +69,12 @@ TypingFails(e) ==
         ELSE {})
   \* twins
   \cup (IF e.twin.by = "rot" /\ r.exc = "" /\ e.twin.res.exc = ""
-        THEN IF UniqueStart(c.toks, w) THEN Chk("C02:RotInv", Same(r, e.twin.res)) ELSE {"S:C02Precondition"}
+        THEN IF Len(c.toks) = 0 /\ "occ" \in DOMAIN e
+             \* the class's pattern is outside the modelled language (a look-around, say): the harness evaluated the
+             \* precondition with an independent matcher - exactly one place of the circle at which the pattern matches
+             \* in at least one linearisation (the reading under which an accepting implementation has seen an occurrence)
+             THEN IF e.occ = 1 THEN Chk("C02:RotInv", Same(r, e.twin.res)) ELSE {"S:C02Precondition"}
+             ELSE IF UniqueStart(c.toks, w) THEN Chk("C02:RotInv", Same(r, e.twin.res)) ELSE {"S:C02Precondition"}
         ELSE {})
   \cup (IF e.twin.by = "case" /\ r.exc = "" /\ e.twin.res.exc = ""
         THEN Chk("C18:CaseInv", SameUpToCase(r, e.twin.res)) ELSE {})
